@@ -162,9 +162,10 @@ fn generated_units(rng: &mut Rng, n: usize, shapes: &mut BTreeMap<String, usize>
         for (k, v) in &base.shapes { *shapes.entry(k.to_string()).or_insert(0) += v; }
         res.push(Unit { name: format!("g{i:04}"), origin: format!("generated seed={seed}"), text: base.text.clone(), inject: None, gen_base: true });
         if base.safe_points == 0 { continue; }
-        for (j, uam) in [(0, true), (1, false)] {
+        for j in 0..3 {
             let at = 1 + rng.below(base.safe_points as u64) as usize;
-            let m = pgen::generate(seed, Some((at, uam)), budget);
+            let plan = match j { 0 => pgen::Plan::Uam(at), 1 => pgen::Plan::Md(at), _ => pgen::Plan::Gas };
+            let m = pgen::generate(seed, Some(plan), budget);
             if let Some(inj) = m.injected.clone() {
                 res.push(Unit { name: format!("g{i:04}m{j}"), origin: format!("generated seed={seed} inject@{at}"), text: m.text, inject: Some(inj), gen_base: false });
             }
@@ -380,7 +381,9 @@ fn main() {
                     "unit": u.name, "origin": u.origin, "program": u.text}));
             }
             if let Some(inj) = &u.inject {
-                if !d.has_errors && d.panic.is_none() {
+                // an out-of-gas violation exists only where withdraw_gas is added
+                let expected = !matches!(inj, pgen::Inject::MissingDropOutOfGas(_)) || CONFIGS[k].gas;
+                if expected && !d.has_errors && d.panic.is_none() {
                     failures.push(json!({"kind": "ownership_violation_accepted", "why": format!("{inj:?} but no error diagnostic"),
                         "config": CONFIGS[k].name, "unit": u.name, "origin": u.origin, "program": u.text}));
                 }
@@ -388,7 +391,7 @@ fn main() {
         }
         if let Some(inj) = &u.inject {
             n_inj += 1;
-            let want = match inj { pgen::Inject::UseAfterMove(_) => "previously moved", pgen::Inject::MissingDrop(_) => "not dropped" };
+            let want = match inj { pgen::Inject::UseAfterMove(_) => "previously moved", _ => "not dropped" };
             if results[0].diags[i].msgs.iter().any(|m| m.contains(want)) { n_inj_kind_ok += 1; }
         }
         if u.gen_base { n_base += 1; if acc { n_base_accepted += 1; } else if rejected_samples.len() < 8 {
